@@ -40,3 +40,100 @@ pub open spec fn capacity_of(t: Term) -> TermCapacity {
         | Term::ConjunctionParallel(_) => TermCapacity::Set,
     }
 }
+
+/// C10: "the image whose placeholder index is the position of the first placeholder and whose
+/// remaining components keep their order".
+pub open spec fn is_first_placeholder(s: Seq<Term>, i: int) -> bool {
+    0 <= i < s.len() && s[i] == Term::Placeholder
+        && forall|j: int| 0 <= j < i ==> s[j] != Term::Placeholder
+}
+pub open spec fn has_placeholder(s: Seq<Term>) -> bool {
+    exists|i: int| 0 <= i < s.len() && s[i] == Term::Placeholder
+}
+
+// ---- C14: components --------------------------------------------------------------------
+pub open spec fn deref_seq(r: Seq<&Term>) -> Seq<Term> {
+    r.map_values(|x: &Term| *x)
+}
+
+pub open spec fn is_set_like(t: Term) -> bool {
+    capacity_of(t) == TermCapacity::Set
+}
+
+/// the unordered component container of a set-like term
+pub open spec fn set_of(t: Term) -> Set<Term> {
+    match t {
+        Term::SetExtension(s) | Term::SetIntension(s) | Term::IntersectionExtension(s)
+        | Term::IntersectionIntension(s) | Term::Conjunction(s) | Term::Disjunction(s)
+        | Term::ConjunctionParallel(s) => s@,
+        _ => Set::empty(),
+    }
+}
+
+/// the ordered components of a term that is not set-like, *without* an image's placeholder:
+/// an atom is its own single component, negation has one, binary terms two in stored order,
+/// ordered compounds their vector.
+pub open spec fn ordered_components(t: Term) -> Seq<Term> {
+    match t {
+        Term::Negation(a) => seq![*a],
+        Term::DifferenceExtension(a, b) | Term::DifferenceIntension(a, b) | Term::Inheritance(a, b)
+        | Term::Similarity(a, b) | Term::Implication(a, b) | Term::Equivalence(a, b)
+        | Term::ImplicationPredictive(a, b) | Term::ImplicationConcurrent(a, b)
+        | Term::ImplicationRetrospective(a, b) | Term::EquivalencePredictive(a, b)
+        | Term::EquivalenceConcurrent(a, b) => seq![*a, *b],
+        Term::Product(v) | Term::ImageExtension(_, v) | Term::ImageIntension(_, v)
+        | Term::ConjunctionSequential(v) => v@,
+        Term::SetExtension(_) | Term::SetIntension(_) | Term::IntersectionExtension(_)
+        | Term::IntersectionIntension(_) | Term::Conjunction(_) | Term::Disjunction(_)
+        | Term::ConjunctionParallel(_) => Seq::empty(),
+        _ => seq![t],
+    }
+}
+
+/// ordered components *with* the image placeholder re-inserted at its recorded index
+pub open spec fn ordered_components_with_placeholder(t: Term) -> Seq<Term> {
+    match t {
+        Term::ImageExtension(i, v) | Term::ImageIntension(i, v) => v@.insert(i as int, Term::Placeholder),
+        _ => ordered_components(t),
+    }
+}
+
+/// a duplicate-free sequence that covers a finite set of the same size is an enumeration of it
+pub proof fn lemma_enumeration_of_set(r: Seq<Term>, s: Set<Term>)
+    requires
+        r.no_duplicates(),
+        r.len() == s.len(),
+        forall|x: Term| #[trigger] s.contains(x) ==> r.contains(x),
+    ensures
+        r.to_set() == s,
+{
+    r.unique_seq_to_set();
+    assert forall|x: Term| s.contains(x) implies #[trigger] r.to_set().contains(x) by {
+        assert(r.contains(x));
+    }
+    assert(s.subset_of(r.to_set()));
+    vstd::set_lib::lemma_subset_equality(s, r.to_set());
+}
+
+/// same, phrased over the `Seq<&Term>` a borrowing iterator yields; broadcast so that it can be
+/// used at the end of a `match` arm that is a single expression
+pub broadcast proof fn lemma_ref_enumeration_of_set(rem: Seq<&Term>, s: Set<Term>)
+    requires
+        rem.no_duplicates(),
+        rem.len() == s.len(),
+        forall|x: Term| #[trigger] s.contains(x) ==> rem.contains(&x),
+    ensures
+        #![trigger deref_seq(rem).to_set(), s.len()]
+        deref_seq(rem).to_set() == s,
+{
+    let r = deref_seq(rem);
+    assert forall|i: int, j: int| 0 <= i < r.len() && 0 <= j < r.len() && i != j implies r[i] != r[j] by {
+        assert(rem[i] != rem[j]);
+    }
+    assert forall|x: Term| #[trigger] s.contains(x) implies r.contains(x) by {
+        assert(rem.contains(&x));
+        let i = choose|i: int| 0 <= i < rem.len() && rem[i] == &x;
+        assert(r[i] == x);
+    }
+    lemma_enumeration_of_set(r, s);
+}
